@@ -265,6 +265,27 @@ def run(ctx: Ctx, tier: str) -> Result:
                 need_cap = op.kind.split(":", 1)[1]
             elif op.kind.startswith("mutate"):
                 need_cap = "<never>"
+            if need_cap in caps and op.kind == "getitem" and isinstance(op.node, ast.Subscript) and not isinstance(op.node.slice, (ast.Constant, ast.Slice)):
+                # a dict read by key: the key came from a copy of the keys taken earlier - by the time it is read the entry may be
+                # gone (another thread of the program removes it; a key whose hash moved is listed but not found): the read is
+                # under a membership test of that key, or guarded
+                key_t, subj_t = norm(op.node.slice), norm(op.subject)
+                tested = any((pol and norm(c_) == "%s in %s" % (key_t, subj_t)) or ((not pol) and norm(c_) == "%s not in %s" % (key_t, subj_t))
+                             for c_, pol in paths.conditions(ctx.prog, op.node, fi))
+                # guard form inside a loop: `if key not in value: continue` before the read
+                st_op = paths.stmt_of(ctx.prog, op.node)
+                for lp_ in paths.enclosing_loops(ctx.prog, op.node, fi):
+                    for sib in getattr(lp_, "body", []):
+                        if sib.lineno < st_op.lineno and isinstance(sib, ast.If) and not sib.orelse and sib.body and isinstance(sib.body[-1], (ast.Continue, ast.Break)) \
+                                and norm(sib.test) in ("%s not in %s" % (key_t, subj_t), "not %s in %s" % (key_t, subj_t)):
+                            tested = True
+                for anc in ctx.prog.ancestors(op.node, stop=fi.node):
+                    if isinstance(anc, (ast.ListComp, ast.GeneratorExp, ast.SetComp, ast.DictComp)):
+                        tested = tested or any(norm(i_) == "%s in %s" % (key_t, subj_t) for g_ in anc.generators for i_ in g_.ifs)
+                if not tested and g.catching_try(op.node, fi, "KeyError") is None:
+                    res.fail(Finding("C06.TOTAL", fi.qname, op.node, fi.loc(op.node), "`%s` reads the program's dict by a key taken from an earlier copy of its keys, without testing that the key "
+                                     "is still there: when it is not (removed by another thread, or its hash has moved) the KeyError loses the whole snapshot instead of that one entry" % norm(op.node)[:50]))
+                    continue
             if need_cap in caps:
                 res.ok("C06.TOTAL", {"op": op.kind, "on": norm(op.subject)[:60], "at": fi.loc(op.node), "why": "pinned by type test"})
             else:
@@ -272,7 +293,7 @@ def run(ctx: Ctx, tier: str) -> Result:
                                  "%s on the host value `%s` is neither pinned by a dominating type test nor locally guarded: an input "
                                  "(object without that attribute/method, non-string key, raising dunder) loses the whole snapshot" % (
                                      op.kind, norm(op.subject)[:60])))
-    res.floor("operations on host values in the collector", nops, 12)
+    res.floor("operations on host values in the collector", nops, 8)
     # what the search iterates is a sequence on every path: the child finders answer a (possibly empty) list, never None
     nf = 0
     for c_ in [c for f_ in scope.values() for c in t.calls_in(f_) if isinstance(c.func, ast.Attribute) and c.func.attr == "add_children" and c.args]:
